@@ -284,6 +284,9 @@ def variants(tier: str) -> List[Dict[str, Any]]:
     V.append(variant("step-back-retention", clock="STEP-BACK", props=True, depth=4 if q else 5, alphabet=sb, **one))
     V.append(variant("tick-base3", clock="TICK", depth=3 if q else 4, alphabet=C15_ALPHABET,
                      base=[("append",), ("append2",), ("append",)], **one))
+    # bounds lowered on a live table whose snapshot list / metadata log already exceed them
+    V.append(variant("tick-base4-late-props", clock="TICK", props=True, props_late=True, depth=3 if q else 4,
+                     alphabet=C15_ALPHABET, base=[("append",), ("append",), ("append",), ("append",)], **one))
     return V
 
 
